@@ -9,18 +9,31 @@ from harness.checks.routerchecks import rand_universe
 TOKEN = rl.TOKEN
 
 
+_routers = {}
+
+
 def record(rng, r, path, flavour):
     """Register the single rule on a fresh router, match `path`, build the URL from the delivered values, resolve it again."""
     from ombott.router.radirouter import RadiRouter
-    router = RadiRouter()
     text = rl.render(r['pat'], r['filters'], r['names'], rng, flavour)
-    router.add(text, 'GET', lambda **kw: None)
+    # one router per rule text, reused for every path: a Route object builds many URLs in its life
+    if text not in _routers:
+        _routers[text] = RadiRouter()
+        _routers[text].add(text, 'GET', lambda **kw: None)
+    router = _routers[text]
     path = rl.s2l(rl.l2s(path).strip('/'))       # as RadiRouter.resolve does before the lookup
     got = router.radidict.get(rl.l2s(path))
     if not got:
         return None
     route, extra = got
     keys, vals = list(extra['param_keys']), list(extra['param_values'])
+    if keys and not any(k.startswith('anon-') for k in keys) and path:
+        # the values as a request delivers them: through RadiRouter.resolve, which first normalises the outer slashes
+        # (a request path may carry several)
+        asked = rng.choice(['/', '//', '']) + rl.l2s(path) + rng.choice(['', '/', '//', '///'])
+        ep, _err = router.resolve(asked, ['GET'])
+        if ep is not None and all(k in ep[1] for k in keys):
+            vals = [ep[1][k] for k in keys]
     args = [v for k, v in zip(keys, vals) if k.startswith('anon-')]
     kw = {k: v for k, v in zip(keys, vals) if not k.startswith('anon-')}
     rec = {'pat': r['pat'], 'filters': r['filters'], 'path': path, 'vals': [rl.val_text(v) for v in vals], 'url': [], 'exc': '',
@@ -36,7 +49,12 @@ def record(rng, r, path, flavour):
     got2 = router.radidict.get(url.strip('/'))
     if got2:
         route2, extra2 = got2
-        rec['re'] = {'found': True, 'same': route2 is route, 'vals': [rl.val_text(v) for v in extra2['param_values']]}
+        vals2 = list(extra2['param_values'])
+        if keys and not any(k.startswith('anon-') for k in keys):
+            ep2, _err = router.resolve(url, ['GET'])
+            if ep2 is not None and all(k in ep2[1] for k in keys):
+                vals2 = [ep2[1][k] for k in keys]
+        rec['re'] = {'found': True, 'same': route2 is route, 'vals': [rl.val_text(v) for v in vals2]}
     # the mechanism model needs the raw consumed texts: recover them by the reference-free trick of matching the built URL's pieces is
     # not possible in general; they are known when every value is a str (no conversion)
     if all(isinstance(v, str) for v in vals):
@@ -73,6 +91,19 @@ def paths_for(rng, r, n):
                 v = rng.choice(words)
             p += rl.s2l(v)
         out.append(p)
+    # the same Route building URLs for values whose hashes coincide in CPython (hash(-1) == hash(-2)), one after the other
+    if any(f in ('int(None)', 'float(None)') for f in r['filters']):
+        for v in ('-1', '-2', '-1'):
+            p = []
+            ti = 0
+            for c in r['pat']:
+                if c != TOKEN:
+                    p.append(c)
+                    continue
+                f = r['filters'][ti]
+                ti += 1
+                p += rl.s2l(v if f == 'int(None)' else v + '.0' if f == 'float(None)' else 'tom' if f == 're(to.)' else 'ab')
+            out.append(p)
     return out
 
 
